@@ -109,7 +109,10 @@ def oracle(h, r, module, pname, input_roundtrips=True):
                 h.mismatch({"check": "dangling_successor", "op": o.name, "pass": pname}, r,
                            f"{o.name} has a successor outside its region")
                 return
-    errs = invariants.check([module])
+    # ops that a pass created or detached and merely dropped (still holding operands) show up as
+    # "use by an op outside the module"; the property does not forbid leaking such ops, so that code is
+    # not reported here (C01 tracks detached ops explicitly instead)
+    errs = [e for e in invariants.check([module]) if e[0] != "use_by_unknown_op"]
     if errs:
         h.mismatch({"check": "invariant", "code": errs[0][0], "pass": pname}, r, str(errs[:3]))
         return
